@@ -227,7 +227,15 @@ func (x *executor) wrapGetter(orig gonnx.OpGetter, ctxOf func() *callCtx) gonnx.
 
 // makeTensor builds the tensor object a caller passes for value v in the given flavour. Every flavour has the
 // same logical value (element type, shape, elements); they differ in memory layout and header state.
-func makeTensor(v *val.V, flavour string) tensor.Tensor {
+func makeTensor(v *val.V, flavour string) (t tensor.Tensor) {
+	defer func() {
+		if r := recover(); r != nil {
+			// Building a tensor from a well-formed value cannot fail - unless process-wide state of the tensor library
+			// (its object and shape pools) has been corrupted by what ran before.
+			poolCorrupted = fmt.Sprintf("constructing a %v%v tensor panicked: %v", v.DT, v.Shape, r)
+			t = nil
+		}
+	}()
 	switch flavour {
 	case "lazyT":
 		if len(v.Shape) >= 2 && v.Bad == "" {
@@ -272,6 +280,9 @@ func makeTensor(v *val.V, flavour string) tensor.Tensor {
 	}
 	return v.Tensor()
 }
+
+// poolCorrupted is set when the harness itself can no longer build tensors (see makeTensor).
+var poolCorrupted string
 
 type rangeSlice struct{ a, b int }
 
@@ -478,6 +489,10 @@ func (x *executor) doCall(ti, ci int, ctx *callCtx) {
 		for k, v := range call.Inputs {
 			in[k] = makeTensor(v, call.Flavour[k])
 		}
+	}
+	if poolCorrupted != "" {
+		res.Kind, res.Err, res.Skipped = "corrupted", poolCorrupted, false
+		return
 	}
 	res.inObjs = in
 	res.flavour = call.Flavour
